@@ -38,6 +38,7 @@ def stateOk (c : Cfg) (ar aq : Nat) (s : S) : Option String :=
     some s!"inv-clause-{((invList c ar aq s).zipIdx.filter (fun (b, _) => !b)).map (·.2)}"
   else if s.cleaned && outcome c s == .silent then some "silent-outcome"
   else if blocked s && !c.oneway && !(settle c fuel (step c s .globalFire)).cleaned then some "timeout-does-not-complete"
+  else if blocked s && liveCount s.streams == 0 then some "parked-without-live-upstream"
   else none
 
 structure Res where
